@@ -270,7 +270,27 @@ def removeHuge (n : Net K) (tol : K) (rhs bh : List K) : Net K := removeHugeWith
 def absTerms (n : Net K) (tol : K) (rhs bh : List K) : List K :=
   (n.revised.zip (consulted rhs bh)).map fun ob => testAbsTerm n.pts tol ob.1 ob.2
 
+/-- **what the program reports of the absolute-term stage.**  gama-local (src/gama-local.cpp):
+    `if (IS->huge_abs_terms()) { OutlyingAbsoluteTerms(IS, cout); IS->remove_huge_abs_terms(); … }`.
+    `OutlyingAbsoluteTerms` (results/text/outlying_abs_terms.h) returns at once when the gate is closed,
+    else prints one row per `i = 1 … observations_count()` with `test_abs_term(i) != 0`: the number
+    `i` (1-based position in `revised_obs_`) and the observation `ptr_obs(i)`.  These rows: -/
+def absRows (n : Net K) (tol : K) (rhs bh : List K) : List (Nat × Obs K) :=
+  if hugeFlag n tol rhs then
+    (((n.revised.zip (absTerms n tol rhs bh)).zipIdx 1).filter (fun q => truthy q.1.2)).map (fun q => (q.2, q.1.1))
+  else []
+
 end abs
+
+/-- the observations that were active `before` and are passive `after` (two states of the same
+    observation lists, position by position): (the observation as it was, the observation as it is) -/
+def madePassive (before after : List (Obs K)) : List (Obs K × Obs K) :=
+  (before.zip after).filter (fun q => q.1.active && !q.2.active)
+
+/-- per ACTIVE observation of `before` (= per entry of `revised_obs_`, = per row / vector entry):
+    `true` when the observation is passive `after` -/
+def droppedMask (before after : List (Obs K)) : List Bool :=
+  ((before.zip after).filter (fun q => q.1.active)).map (fun q => !q.2.active)
 
 /-! ### homogenisation of the right-hand side and the complete exclusion pipeline -/
 
